@@ -17,7 +17,9 @@ def run(ctx):
     items = []
     for k, e in enumerate(pl["extracts"]):
         via_cli = (k % 2 == 1)
-        items.append(("art-extract", dict(depth=e["depth"], batch=e["batch"], cli=cli if via_cli else "", dir=ctx.scratch, prev=os.path.join(REPO, "formal-verification", "FormalVerification.lean"),
+        # the service's deployment environment (MTB_MODE selects the mode of setup / start / prove ...) is not an input of extraction
+        env = [[], ["MTB_MODE=insertion"], ["MTB_MODE=deletion"]][(k // 2) % 3] if via_cli else []
+        items.append(("art-extract", dict(depth=e["depth"], batch=e["batch"], cli=cli if via_cli else "", env=env, dir=ctx.scratch, prev=os.path.join(REPO, "formal-verification", "FormalVerification.lean"),
                                           keep=keep if (e["depth"], e["batch"], via_cli) == (30, 4, False) or (e["depth"], e["batch"]) == (30, 4) and not os.path.exists(keep) else ""), e["procs"]))
     # repetition: Go randomises map iteration and goroutine scheduling per run, so the same dimensions are also extracted many times
     # within one process (cheap), every repetition being one more Extract event of the trace
@@ -34,8 +36,9 @@ def run(ctx):
         r = recs[bad - 1]
         if r["event"] == "extract":
             prev = [x for x in recs[:bad - 1] if x["event"] == "extract" and (x["depth"], x["batch"]) == (r["depth"], r["batch"])]
-            why = ("extraction fails: " + r["err"]) if r["err"] else "extraction at (%d,%d) is not deterministic: definitions %s differ between two runs" % (
-                r["depth"], r["batch"], [n for n in r["defs"] if prev and prev[0]["defs"].get(n) != r["defs"][n]][:4])
+            names = sorted(n for n in set(r["defs"]) | set(prev[0]["defs"] if prev else {}) if prev and prev[0]["defs"].get(n) != r["defs"].get(n))
+            why = ("extraction fails: " + r["err"]) if r["err"] else "extraction at (%d,%d) is not a function of depth and batch: %d definitions differ or are missing between two runs (%s vs %s): %s" % (
+                r["depth"], r["batch"], len(names), prev[0].get("via") if prev else "?", r.get("via"), names[:4])
             ctx.violation(why, dict(kind="c17", rejected={k: v for k, v in r.items() if k != "defs"}))
         else:
             ex = [x for x in recs if x["event"] == "extract" and (x["depth"], x["batch"]) == (30, 4) and not x["err"]]
